@@ -2171,8 +2171,16 @@ def lex_tokens(line):
         tokens = ['string', value]
         return LineTokens(line, tokens)
 
+    # protect single-character literals such as '#', '(' or ',' from the
+    # comment stripping, paren padding and comma splitting done below
+    literals = []
+    def protect(match):
+        literals.append(match.group(0))
+        return '\x00{}\x00'.format(len(literals) - 1)
+    contents = re.sub(r"'(\\.|[^\\'])'", protect, line.contents)
+
     # strip comments
-    contents = re.sub(r'#.*$', r'', line.contents)
+    contents = re.sub(r'#.*$', r'', contents)
 
     # pad parens before split
     contents = contents.replace('(', ' ( ').replace(')', ' ) ')
@@ -2190,6 +2198,10 @@ def lex_tokens(line):
     # remove empty tokens
     while '' in tokens:
         tokens.remove('')
+
+    # restore protected character literals
+    restore = lambda match: literals[int(match.group(1))]
+    tokens = [re.sub('\x00([0-9]+)\x00', restore, t) for t in tokens]
 
     # carry the line and its tokens forward
     return LineTokens(line, tokens)
